@@ -307,9 +307,43 @@ func pair[U Uint](req *Req) (res Res) {
 	return
 }
 
+// retry: ONE instance, one Buffer, no Reset: Parse(entry) for each entry in HistEntry in turn until one succeeds
+// ("try to read it as an Assignment, else as an Expression"). A failed Parse must leave the parser where it started.
+func retry[U Uint](req *Req) (res Res) {
+	res.Seq = req.Seq
+	p := &{{.Type}}[U]{Buffer: string(req.In)}
+	if err := p.Init(options[U](req)...); err != nil {
+		res.Panic = "Init error: " + err.Error()
+		return
+	}
+	for _, entry := range req.HistEntry {
+		var r Res
+		stop := false
+		func() {
+			defer func() {
+				if x := recover(); x != nil {
+					r.Panic = fmt.Sprint(x)
+					stop = true
+				}
+			}()
+			err := parse(p, entry)
+			collect(p, err, req, &r)
+			stop = err == nil
+		}()
+		res.Hist = append(res.Hist, r)
+		if stop {
+			break
+		}
+	}
+	return
+}
+
 func dispatch[U Uint](req *Req) Res {
 	if req.Mode == "history" {
 		return history[U](req)
+	}
+	if req.Mode == "retry" {
+		return retry[U](req)
 	}
 	if req.Mode == "pair" {
 		return pair[U](req)
